@@ -37,14 +37,16 @@ Proof.
 Qed.
 Print Assumptions C02_header_bounds.
 
-(* decoding into a previously used receiver gives the same result as decoding into a fresh one *)
+(* decoding into a previously used receiver gives the same result as decoding into a fresh one -
+   the same in every field, the extension profile of a packet without extension included (it used
+   to keep the previous packet's profile: repair D26) *)
 Theorem C02_reuse_packet : forall prev buf,
-  pkt_res_equiv (packet_unmarshal_into prev buf) (packet_unmarshal_into empty_packet buf).
+  packet_unmarshal_into prev buf = packet_unmarshal_into empty_packet buf.
 Proof. exact packet_unmarshal_reuse. Qed.
 Print Assumptions C02_reuse_packet.
 
 Theorem C02_reuse_header : forall prev buf,
-  hdr_res_equiv (header_unmarshal_into prev buf) (header_unmarshal_into empty_header buf).
+  header_unmarshal_into prev buf = header_unmarshal_into empty_header buf.
 Proof. exact header_unmarshal_reuse. Qed.
 Print Assumptions C02_reuse_header.
 
